@@ -27,7 +27,9 @@ class C04(PropertyCheck):
     rule = ("boundary grid: sizes 0..9 x addresses {0..12, 2^32+-2, usize::MAX-8..MAX} x every accessor (typed reads/writes, block "
             "reads with widths {0..5,8,MAX-8..MAX}, block writes, annotation accessors) x both endiannesses x both build profiles, "
             "full state compared after every call; value stream: all widths x boundary/NaN bit patterns written and read back; "
-            "interleavings of stream and positional operations (<= 40 steps). Non-trivial = at least one access succeeds and one is "
+            "interleavings of stream and positional operations (<= 40 steps); stream `same-object`: runs of stream operations served by ONE "
+            "reader / writer object (writer inserts then writes past the old end, writer appends then writes into the new bytes, repeated "
+            "label reads on one reader at one and at two addresses), each also with a fresh object per operation. Non-trivial = at least one access succeeds and one is "
             "rejected in the case, or a written value is read back; distinct = distinct case line.")
     assumptions = ["Vec length <= isize::MAX (so `address + 4` after a passed lower-bound check cannot overflow)",
                    "f32 values are transported as bit patterns (to_bits/from_bits) on both sides",
@@ -104,6 +106,63 @@ class C04(PropertyCheck):
                                      ("wi32", [str(a), str(v - (1 << 32) if v >= (1 << 31) else v)]), ("ru32", [str(a)]),
                                      ("wu8", [str(a), str(v & 0xFF)]), ("ri8", [str(a)])]
                     cases.append(Case(pyarchive.render_case(e, 1, ops), "values"))
+        # ONE reader / ONE writer object serving a whole run of stream operations (harness/src/k_ba.rs; `fresh` ends the run): anything
+        # a long-lived object remembers about the archive must not change its answers (seeded changes C04-7: cached size in the
+        # writer, C04-8: cached label bucket in the reader).  Every history also with `fresh` between the steps.
+        for e in "LB":
+            # writer: insert in the middle, then write at cursors in old_size .. new_size - 1 and beyond, every width
+            for size in (8, 12):
+                for ins in (4, 8):
+                    for m in (4, 8):
+                        if ins >= size:
+                            continue
+                        for pos in range(size - 1, size + m + 1):
+                            for wop in (("Wwu8", ["9"]), ("Wwi8", ["-3"]), ("Wwb", ["Ba1a2"]), ("Wwu16", ["513"]), ("Wwu32", ["16909060"]),
+                                        ("Wws", ["B41"]), ("Wwp", ["4"]), ("Wwl", ["B4c"]), ("Wwc", ["B43"])):
+                                if tier == "quick" and wop[0] in ("Wwu16", "Wwp", "Wwc") and m == 8:
+                                    continue
+                                for sep in ([], [("fresh", [])]):
+                                    ops = base(size) + [("Wseek", [str(ins)]), ("Wal", [str(m), "0"])] + sep + [("Wseek", [str(pos)]), wop, wop,
+                                                                                                                 ("rb", ["0", str(size + m)])]
+                                    cases.append(Case(pyarchive.render_case(e, 1, ops), "same-object"))
+            # writer: append through the writer, then write into the appended bytes
+            for size in (0, 4, 6):
+                for n in (1, 4):
+                    for sep in ([], [("fresh", [])]):
+                        ops = base(size) + [("Wseek", [str(size)]), ("Waae", [str(n)])] + sep + [("Wwu8", ["7"]), ("Wseek", [str(size)]), ("Wwb", ["B" + "cd" * n]),
+                                                                                                 ("Wwu8", ["1"]), ("rb", ["0", str(size + n)])]
+                        cases.append(Case(pyarchive.render_case(e, 1, ops), "same-object"))
+            # reader: label accesses repeated on one reader, at one address and at two, with value reads / seeks in between
+            lab = base(12) + [("wl", ["0", "B4f7761696e"]), ("wl", ["0", "B536576657261"]), ("wl", ["4", "B43"]), ("wl", ["0", "B58"]), ("wls", ["8", "0"])]
+            seqs = [
+                [("Rseek", ["0"]), ("Rrl", ["0"]), ("Rrl", ["0"]), ("Rrl", ["1"]), ("Rrls", []), ("Rrl", ["2"]), ("Rrl", ["3"]), ("Rrl", ["0"])],
+                [("Rseek", ["0"]), ("Rrls", []), ("Rrls", []), ("Rrl", ["1"]), ("Rrls", [])],
+                [("Rseek", ["0"]), ("Rrl", ["0"]), ("Rseek", ["4"]), ("Rrl", ["0"]), ("Rrl", ["0"]), ("Rseek", ["0"]), ("Rrl", ["0"]), ("Rrls", [])],
+                [("Rseek", ["0"]), ("Rrl", ["1"]), ("Rru32", []), ("Rseek", ["0"]), ("Rrl", ["1"]), ("Rrl", ["0"])],
+                [("Rseek", ["4"]), ("Rrl", ["0"]), ("Rseek", ["8"]), ("Rrl", ["0"]), ("Rrls", []), ("Rseek", ["4"]), ("Rrls", []), ("Rrl", ["0"])],
+                [("Rseek", ["0"]), ("Rrl", ["0"]), ("wl", ["0", "B59"]), ("Rrl", ["0"]), ("Rrl", ["3"]), ("dl", ["0", "0"]), ("Rrl", ["0"]), ("Rrls", [])],
+            ]
+            for sq in seqs:
+                cases.append(Case(pyarchive.render_case(e, 1, lab + sq), "same-object"))
+                withfresh = []
+                for op in sq:
+                    withfresh += [op, ("fresh", [])]
+                cases.append(Case(pyarchive.render_case(e, 1, lab + withfresh), "same-object"))
+            for _ in range(60 if tier == "quick" else 600):
+                sq = []
+                for _ in range(rng.randint(4, 16)):
+                    x = rng.random()
+                    if x < 0.3:
+                        sq.append(("Rseek", [str(rng.choice([0, 0, 4, 8, 1]))]))
+                    elif x < 0.65:
+                        sq.append(("Rrl", [str(rng.randint(0, 3))]))
+                    elif x < 0.85:
+                        sq.append(("Rrls", []))
+                    elif x < 0.92:
+                        sq.append((rng.choice(["Rru8", "Rru32", "Rrs", "Rrp"]), []))
+                    else:
+                        sq.append(("fresh", []))
+                cases.append(Case(pyarchive.render_case(e, 1, lab + sq), "same-object"))
         # interleavings of stream and positional operations
         n_inter = 300 if tier == "quick" else 3000
         for _ in range(n_inter):
@@ -184,7 +243,9 @@ MANIFEST = dict(
          "succeeds on a stream wherever the cursor stands while the positional call fails at or beyond the end. Model tied to /repo on "
          "every run by the extracted model vs the real library on an exhaustive boundary grid (incl. usize::MAX region, stream block "
          "reads and writes around the end) + value patterns + random stream/positional interleavings in debug and release builds, "
-         "state compared after every call; an independent Python reference archive is the oracle.",
+         "state compared after every call; the harness keeps ONE reader / ONE writer object alive over every run of consecutive stream "
+         "operations (and, with the no-op `fresh`, a new object per operation), so state cached inside a long-lived accessor is exercised; "
+         "an independent Python reference archive is the oracle.",
     note=TB + "Modelled, not verified: Vec/slice semantics, to_le_bytes/from_le_bytes (A-std). `address + 4` after the lower-bound check "
               "is a plain sum (size <= isize::MAX). seek/skip/tell are not modelled (cursor assignments; `skip` with an overflowing amount is "
               "not a value access); the BinArchiveReader implementation of read_shift_jis_string (encoded_strings.rs, a stream read "
